@@ -153,12 +153,20 @@ def tables(prog, chk):
     loc_arms = variant_arms(ls)
     loc_fields = {v: _component_fields(ls, b) for v, b in loc_arms.items()}
     chk.floor("A15.selection-tables", len(loc_fields), 13, "locspec arm")
+    # the reading of locspec's arms is only trusted when every component of every arm is a plain expression over the
+    # box's own fields; hoisted locals (`mid_x`), helpers or another arm layout make it unreadable - the values
+    # themselves are decided by A17.algebra (BoundingBox::locspec), the name tables below by this rule
+    readable = bool(loc_fields) and all(f and all(c[0] for c in f) for f in loc_fields.values()) and bool(letters) and bool(dir_to_loc)
+    if not readable:
+        chk.undecided("A15.selection-tables", "locspec-arms", ls_fn.where(), "the arms of BoundingBox::locspec / the direction and location name tables are not in a form this rule can read (hoisted locals, helpers, a generic parser); the location values are decided by A17.algebra")
     # direction letters, composed
     for letter, (rx, ry) in DIR_REF.items():
         v = letters.get(letter)
         loc = dir_to_loc.get(v)
         got = loc_fields.get(loc)
         ok = got is not None and got[0][0] == rx and got[1][0] == ry
+        if not readable:
+            continue
         chk.ob(ok, "A15.selection-tables", f"dir:{letter}", ls_fn.where(), f"`|{letter}` anchors on x in {rx}, y in {ry} of the reference box", f"`|{letter}` -> {v} -> {loc} reads {got} (expected x {rx}, y {ry})")
     # location names
     lf = prog.hir[prog.body("<svgdx::position::LocSpec as std::str::FromStr>::from_str").id]
@@ -177,10 +185,14 @@ def tables(prog, chk):
     for name, (rx, ry) in LOC_REF.items():
         got = loc_fields.get(names.get(name))
         ok = got is not None and got[0][0] == rx and got[1][0] == ry and not got[0][1] and not got[1][1]
+        if not readable:
+            continue
         chk.ob(ok, "A15.selection-tables", f"loc:{name}", ls_fn.where(), f"`@{name}` is x from {rx}, y from {ry}", f"`@{name}` -> {names.get(name)} reads {got} (expected x {rx}, y {ry})")
     for name, (rx, ry, axis) in EDGE_REF.items():
         got = loc_fields.get(edges.get(name))
         ok = got is not None and got[0][0] == rx and got[1][0] == ry and got[0][1] == (axis == "x") and got[1][1] == (axis == "y")
+        if not readable:
+            continue
         chk.ob(ok, "A15.selection-tables", f"edge:{name}", ls_fn.where(), f"`@{name}:offset` runs along {axis} between {rx if axis == 'x' else ry} at fixed {'y ' + str(ry) if axis == 'x' else 'x ' + str(rx)}", f"`@{name}:offset` -> {edges.get(name)} reads {got}")
     # scalar names
     sf = prog.hir[prog.body("<svgdx::position::ScalarSpec as std::str::FromStr>::from_str").id]
